@@ -815,6 +815,13 @@ func c15Part1(e *Env, st *c15Stats, root string) {
 			atomic.AddInt64(&st.binWL, 1)
 		}
 	}
+	// sets written in IPv6 notation that contain the IPv4-mapped block: IPv4 clients are inside
+	for _, sp := range []string{"::/0", "::1/64", "::-ffff::", "::/80"} {
+		mk("lib", sp, false, false)
+		if e.Bin != "" {
+			mk("bin", sp, false, false)
+		}
+	}
 	// dual-stack wildcard listener ([::]:port): IPv4 clients, IPv4 and IPv6-only sets
 	nd := len(cases)
 	for i := 0; i < e.Pick(6, 40); i++ {
